@@ -162,6 +162,9 @@ def orchestrator_oracles(ops, cls_size, cls_align=8):
             req.pop(r, None)
         if n in ("drain_vec", "into_iter", "drop", "forget", "leak"):
             req.pop(r, None)
+        if n == "clone_from" and res == "ok":
+            # `*self = source.clone()`: the destination's own storage is released and replaced by the clone's
+            req.pop(r, None)
         for reg, h in op.H.items():
             if reg in req and req[reg] <= 4096 and "al" in h and h["al"] % req[reg] != 0:
                 out.append(("align-req", i, "%s as_ptr mod %d = %d after `%s`" % (reg, req[reg], h["al"] % req[reg], op.line)))
@@ -209,6 +212,8 @@ def orchestrator_oracles(ops, cls_size, cls_align=8):
             # constructors
             if n == "with_capacity" and res == "ok" and after is not None and after[1] != int(a[1]):
                 out.append(("reserve-contract", i, "with_capacity(%s) gave capacity %d" % (a[1], after[1])))
+            if n == "with_alignment" and res == "ok" and after is not None and after[1] < int(a[1]):
+                out.append(("reserve-contract", i, "with_alignment(%s, %s) returned Ok with capacity %d" % (a[1], a[2], after[1])))
             if n == "macro_repeat" and res == "ok" and after is not None and after[0] != int(a[2]):
                 out.append(("reserve-contract", i, "mini_vec![_; %s] has len %d" % (a[2], after[0])))
             if n == "macro_repeat" and res == "ok":
